@@ -33,12 +33,15 @@ SecondAfterFirstDial == (2 \in Conns /\ 1 \in Conns) => ((st'[2].pc # "idle" /\ 
 Containment == SecondAfterFirstDial /\ ((lst' = "closed" /\ lst = "open") => \A c \in Conns : st[c].pc = "done")
 \* a receiver that stopped reading comes back only after more than the handshake timeout has passed (a write that blocks
 \* longer than any timeout the handler knows), and the peers do not end their streams while the other side is away
-ResumeLate == \A c \in Conns : /\ (st[c].tpz > 0 /\ st'[c].tpz = 0) => now >= st[c].tpz + Timeout
-                               /\ (st[c].cpz > 0 /\ st'[c].cpz = 0) => now >= st[c].cpz + Timeout
-\* pauses happen before the data they hold up is sent
-PauseFirst == \A c \in Conns : /\ (st'[c].tpz > 0 /\ st[c].tpz = 0) => ONData(ob[c]) = 0
-                               /\ (st'[c].cpz > 0 /\ st[c].cpz = 0) => ob[c].tsent = 0
+ResumeLate == \A c \in Conns : /\ (st[c].tpz > 0 /\ st'[c].tpz <= 0) => now >= st[c].tpz + Timeout
+                               /\ (st[c].cpz > 0 /\ st'[c].cpz <= 0) => now >= st[c].cpz + Timeout
+\* pauses begin before any data has been delivered to that receiver
+PauseFirst == \A c \in Conns : /\ (st'[c].tpz > 0 /\ st[c].tpz = 0) => DataOf(ob[c].tlog) = <<>>
+                               /\ (st'[c].cpz > 0 /\ st[c].cpz = 0) => DataOf(ob[c].clog) = <<>>
 PausedReceiver == ResumeLate /\ PauseFirst
+\* the listener is closed (accept reports net.ErrClosed, StreamServe cancels the handlers' context) while a connection that
+\* has not authenticated is being read / absorbed
+CloseWhileAbsorbing == (lst' = "closed" /\ lst = "open") => \E c \in Conns : st[c].pc \in {"read50", "absorb"}
 \* the target speaks only after the handshake deadline of the connection has long passed (the relay outlives it)
 TargetSendsLate == \A c \in Conns : ob'[c].tsent > ob[c].tsent => now > ob[c].acceptAt + Timeout
 \* and the client does not end the connection before the target has spoken
